@@ -62,7 +62,7 @@ func (c *Ctx) uniq(key string) string {
 }
 
 func (c *Ctx) add(rule, key string, pos token.Pos, verdict, msg string, path []string) {
-	k := c.uniq(rule + "@" + key)
+	k := c.uniq(strings.ReplaceAll(rule+"@"+key, " ", ""))
 	if c.Only != "" && c.Only != k {
 		return
 	}
